@@ -19,7 +19,10 @@
       retained replays carry no cursor and are not events;
     - [KJump from to]: a sweep that was not refused ([SInflightFull]) started with a STALE cursor
       ([stale (d_log d) (dr_cursor rq) = true], the log rolled past it): it continues at the log's
-      base [to]; the entries [from, to) were evicted unforwarded ("within retention" proviso). *)
+      base [to]; the entries [from, to) were evicted unforwarded ("within retention" proviso);
+    - [KRes]: a new connection RESUMED a saved session: one marker per restored non-shared request,
+      under the key of the NEW link.  Nothing is known about where such a request continues (its
+      cursor was saved, possibly rewound to the first unacknowledged forward: C08). *)
 From Rumqtt Require Import Log.Spec Log.ListFacts Router.ExactLog Router.ExactInv Router.WindowFrame.
 From Rumqtt Require Import Router.Model Router.RunDefs.
 From Coq Require Import ZifyBool ZifyN ZifyNat Sorted.
@@ -28,7 +31,8 @@ From Coq Require Import ZifyBool ZifyN ZifyNat Sorted.
 Inductive kev :=
 | KFwd (off : N) (p : publish)
 | KJump (from to : N)
-| KSub (e : N).
+| KSub (e : N)
+| KRes.
 
 Definition dkey : Type := (N * str * N)%type.          (* link, subscription filter, filter log *)
 Definition dev : Type := (N * dkey * kev)%type.         (* connection key, event key, event *)
@@ -42,14 +46,16 @@ Definition ktrace (K : dkey) (tr : list dev) : list kev :=
 
 (** where the request continues after the event *)
 Definition nxt (a : kev) : N :=
-  match a with KFwd off _ => off + 1 | KJump _ to => to | KSub e => e end.
+  match a with KFwd off _ => off + 1 | KJump _ to => to | KSub e => e | KRes => 0 end.
 
 (** [b] may follow [a] in the trace of one key *)
 Definition ok_next (a b : kev) : Prop :=
-  match b with
-  | KFwd off _ => off = nxt a
-  | KJump from to => from = nxt a /\ from <= to
-  | KSub e => nxt a <= e
+  match a, b with
+  | KRes, _ => True
+  | _, KRes => False
+  | _, KFwd off _ => off = nxt a
+  | _, KJump from to => from = nxt a /\ from <= to
+  | _, KSub e => nxt a <= e
   end.
 
 Fixpoint kchain_from (a : kev) (l : list kev) : Prop :=
@@ -214,10 +220,29 @@ Definition handle_device_payload_d (st : rstate) (id : N) : R (rstate * list dev
   end.
 
 (* ------------------------------------------------------------------ step and run, instrumented *)
+Definition unshared_b (rq : drequest) : bool := match dr_group rq with None => true | Some _ => false end.
+
+(** the markers of a Connect, read off its EFFECT: if [client] now owns a connection on the
+    fresh link [link], one [KRes] per non-shared request its tracker starts with (none unless a
+    saved session was restored) *)
+Definition conn_ghost (st' : rstate) (client : str) (link : N) : list dev :=
+  match al_get str_eqb client (r_cmap st') with
+  | Some id =>
+      match slab_get (r_obufs st') id, slab_get (r_trackers st') id with
+      | Some o, Some t =>
+          if o_link o =? link
+          then map (fun rq => (id, (link, dr_filter rq, dr_idx rq), KRes)) (filter unshared_b (tr_reqs t))
+          else []
+      | _, _ => []
+      end
+  | None => []
+  end.
+
 Definition step_d (st : rstate) (o : rop) : R (rstate * rout * list dev) :=
   match o with
   | OpConsume => do (st1, b, evs) <- consume_d st; Ok (st1, OutConsume b, evs)
   | OpData id => do (st1, evs) <- handle_device_payload_d st id; Ok (st1, OutUnit, evs)
+  | OpConnect c => do (st1, out) <- step st o; Ok (st1, out, conn_ghost st1 (cr_client c) (lenN (r_links st)))
   | _ => do (st1, out) <- step st o; Ok (st1, out, [])
   end.
 
@@ -471,7 +496,7 @@ Proof.
 Qed.
 
 Lemma ok_next_mono a b : ok_next a b -> nxt a <= nxt b.
-Proof. destruct b; cbn [ok_next nxt]; lia. Qed.
+Proof. destruct a, b; cbn [ok_next nxt]; try lia; try contradiction. Qed.
 
 Lemma kchain_from_mono a l : kchain_from a l -> forall b, In b l -> nxt a <= nxt b.
 Proof.
@@ -484,7 +509,7 @@ Lemma kchain_from_fwd_ge a l : kchain_from a l -> forall off p, In (KFwd off p) 
 Proof.
   revert a. induction l as [|c l IH]; intros a H off p Hb; [destruct Hb|].
   cbn [kchain_from] in H. destruct H as [H1 H2].
-  destruct Hb as [-> | Hb]; [cbn [ok_next] in H1; lia|].
+  destruct Hb as [-> | Hb]; [destruct a; cbn [ok_next nxt] in *; lia|].
   apply ok_next_mono in H1. specialize (IH _ H2 _ _ Hb). lia.
 Qed.
 
@@ -500,7 +525,7 @@ Lemma kchain_from_increasing a l : kchain_from a l -> increasing (fwd_offs l).
 Proof.
   revert a. induction l as [|b l IH]; intros a H; [constructor|].
   cbn [kchain_from] in H. destruct H as [H1 H2]. unfold fwd_offs. cbn [flat_map].
-  destruct b as [off p| |]; cbn [app]; try (eapply IH; eassumption).
+  destruct b as [off p| | |]; cbn [app]; try (eapply IH; eassumption).
   constructor; [eapply IH; eassumption|]. apply Forall_forall. intros x Hx.
   apply fwd_offs_In in Hx as (q & Hq). pose proof (kchain_from_fwd_ge _ _ H2 _ _ Hq) as Hge. cbn [nxt] in Hge. lia.
 Qed.
@@ -509,7 +534,7 @@ Lemma kchain_increasing l : kchain l -> increasing (fwd_offs l).
 Proof.
   destruct l as [|a l]; [constructor|]. cbn [kchain]. intros H.
   pose proof (kchain_from_increasing _ _ H) as Hi.
-  unfold fwd_offs. cbn [flat_map]. destruct a as [off p| |]; cbn [app]; try exact Hi.
+  unfold fwd_offs. cbn [flat_map]. destruct a as [off p| | |]; cbn [app]; try exact Hi.
   constructor; [exact Hi|]. apply Forall_forall. intros x Hx.
   apply fwd_offs_In in Hx as (q & Hq). pose proof (kchain_from_fwd_ge _ _ H _ _ Hq) as Hge. cbn [nxt] in Hge. lia.
 Qed.
@@ -517,10 +542,10 @@ Qed.
 (** everything between where [a] continues and where the last event of [l] continues is
     accounted for in [l] *)
 Lemma kchain_from_covered a l :
-  kchain_from a l ->
+  kchain_from a l -> a <> KRes ->
   forall x, nxt a <= x -> x < nxt (match last_opt l with Some b => b | None => a end) -> covered x l.
 Proof.
-  revert a. induction l as [|b l IH]; intros a H x Hlo Hhi.
+  revert a. induction l as [|b l IH]; intros a H Hna x Hlo Hhi.
   - cbn [last_opt] in Hhi. lia.
   - cbn [kchain_from] in H. destruct H as [H1 H2].
     assert (Hl : match last_opt (b :: l) with Some c => c | None => a end =
@@ -529,13 +554,16 @@ Proof.
       destruct (last_opt (c :: l)) eqn:E; [reflexivity|].
       exfalso. clear -E. revert c E. induction l as [|d l IHl]; intros c E; [discriminate|]. now apply (IHl d). }
     rewrite Hl in Hhi.
+    assert (Hnb : b <> KRes) by (intros ->; destruct a; cbn [ok_next] in H1; try contradiction; now apply Hna).
     destruct (N.lt_ge_cases x (nxt b)) as [Hx | Hx].
     + (* accounted for by [b] itself *)
-      destruct b as [off p|from to|e]; cbn [ok_next nxt] in *.
-      * left. exists p. left. f_equal. lia.
-      * right. left. exists from, to. split; [now left|lia].
-      * right. right. exists e. split; [now left|lia].
-    + destruct (IH _ H2 x Hx Hhi) as [(p & Hp) | [(from & to & Hj & Hr) | (e & He & Hr)]].
+      destruct a as [ao ap|af at'|ae|]; [| | |exfalso; now apply Hna];
+        (destruct b as [off p|from to|e|]; cbn [ok_next nxt] in *;
+         [left; exists p; left; f_equal; lia
+         |right; left; exists from, to; split; [now left|lia]
+         |right; right; exists e; split; [now left|lia]
+         |contradiction]).
+    + destruct (IH _ H2 Hnb x Hx Hhi) as [(p & Hp) | [(from & to & Hj & Hr) | (e & He & Hr)]].
       * left. exists p. now right.
       * right. left. exists from, to. split; [now right|exact Hr].
       * right. right. exists e. split; [now right|exact Hr].
@@ -570,45 +598,66 @@ Qed.
 Definition mkfwd (x : N * publish) : kev := KFwd (fst x) (snd x).
 
 Lemma kchain_from_fwds : forall (fw : list (N * publish)) a p,
-  nxt a = p -> map fst fw = Nseq p (length fw) ->
-  kchain_from a (map mkfwd fw) /\ nxt (lastd a (map mkfwd fw)) = p + lenN fw.
+  a = KRes \/ nxt a = p -> map fst fw = Nseq p (length fw) ->
+  kchain_from a (map mkfwd fw) /\ (fw <> [] \/ nxt a = p -> nxt (lastd a (map mkfwd fw)) = p + lenN fw).
 Proof.
   induction fw as [|[off q] fw IH]; intros a p Ha Hs; cbn [map kchain_from].
-  - split; [exact I|]. unfold lastd. cbn [last_opt]. rewrite lenN_nil. lia.
+  - split; [exact I|]. unfold lastd. cbn [last_opt]. rewrite lenN_nil. intros [X | X]; [congruence|lia].
   - cbn [length Nseq map fst] in Hs. injection Hs as Ho Hs. subst off.
-    destruct (IH (KFwd p q) (p + 1) eq_refl Hs) as [H1 H2]. split.
-    + split; [cbn [mkfwd ok_next fst]; lia|exact H1].
-    + unfold lastd at 1. rewrite last_opt_cons_lastd. change (mkfwd (p, q)) with (KFwd p q). rewrite H2, lenN_cons. lia.
+    destruct (IH (KFwd p q) (p + 1) (or_intror eq_refl) Hs) as [H1 H2]. split.
+    + split; [|exact H1]. destruct Ha as [-> | Ha]; [exact I|]. destruct a; cbn [mkfwd ok_next fst nxt] in *; first [lia | exact I].
+    + intros _. unfold lastd at 1. rewrite last_opt_cons_lastd. change (mkfwd (p, q)) with (KFwd p q).
+      rewrite H2 by (right; reflexivity). rewrite lenN_cons. lia.
 Qed.
 
 Lemma sweep_chain (l : list kev) (c0 base p : N) (st : bool) (fw : list (N * publish)) :
   kchain l ->
-  (forall a, last_opt l = Some a -> c0 = nxt a /\ (st = true -> c0 <= base)) ->
+  (forall a, last_opt l = Some a -> a = KRes \/ (c0 = nxt a /\ (st = true -> c0 <= base))) ->
   p = (if st then base else c0) ->
   map fst fw = Nseq p (length fw) ->
   let evs := (if st then [KJump c0 base] else []) ++ map mkfwd fw in
-  kchain (l ++ evs) /\ (forall a, last_opt (l ++ evs) = Some a -> nxt a = p + lenN fw).
+  kchain (l ++ evs) /\ (forall a, last_opt (l ++ evs) = Some a -> a = KRes \/ nxt a = p + lenN fw).
 Proof.
   intros Hl Hlast Hp Hs evs. destruct st.
   - (* stale: a jump first *)
-    subst p. destruct (kchain_from_fwds fw (KJump c0 base) base eq_refl Hs) as [H1 H2].
+    subst p. destruct (kchain_from_fwds fw (KJump c0 base) base (or_intror eq_refl) Hs) as [H1 H2].
     assert (E : evs = KJump c0 base :: map mkfwd fw) by reflexivity. rewrite E. split.
     + apply kchain_append; [exact Hl| |intros _; exact H1].
-      intros a Ha. destruct (Hlast a Ha) as [E1 E2]. cbn [kchain_from ok_next]. split; [split; [exact E1|now apply E2]|exact H1].
-    + intros a Ha. rewrite last_opt_app_ne in Ha by discriminate. rewrite last_opt_cons_lastd in Ha. inversion Ha; subst a. exact H2.
+      intros a Ha. cbn [kchain_from]. split; [|exact H1].
+      destruct (Hlast a Ha) as [-> | [E1 E2]]; [exact I|]. destruct a; cbn [ok_next]; auto.
+    + intros a Ha. rewrite last_opt_app_ne in Ha by discriminate. rewrite last_opt_cons_lastd in Ha. inversion Ha; subst a.
+      right. apply H2. right. reflexivity.
   - subst p. assert (E : evs = map mkfwd fw) by reflexivity. rewrite E. split.
     + apply kchain_append; [exact Hl| |].
-      * intros a Ha. destruct (Hlast a Ha) as [E1 _]. apply (kchain_from_fwds fw a c0); [now symmetry|exact Hs].
+      * intros a Ha. apply (kchain_from_fwds fw a c0); [|exact Hs].
+        destruct (Hlast a Ha) as [-> | [E1 _]]; [now left|right; now symmetry].
       * intros _. destruct fw as [|[off q] fw]; [exact I|]. cbn [map kchain mkfwd fst snd].
         cbn [length Nseq map fst] in Hs. injection Hs as Ho Hs. subst off.
-        apply (kchain_from_fwds fw (KFwd c0 q) (c0 + 1) eq_refl Hs).
+        apply (kchain_from_fwds fw (KFwd c0 q) (c0 + 1) (or_intror eq_refl) Hs).
     + intros a Ha. destruct fw as [|[off q] fw].
-      * cbn [map] in Ha. rewrite app_nil_r in Ha. destruct (Hlast a Ha) as [E1 _]. rewrite lenN_nil. lia.
+      * cbn [map] in Ha. rewrite app_nil_r in Ha. destruct (Hlast a Ha) as [-> | [E1 _]]; [now left|].
+        right. rewrite lenN_nil. lia.
       * rewrite last_opt_app_ne in Ha by discriminate. cbn [map mkfwd fst snd] in Ha.
         rewrite last_opt_cons_lastd in Ha. inversion Ha; subst a.
         cbn [length Nseq map fst] in Hs. injection Hs as Ho Hs. subst off.
-        destruct (kchain_from_fwds fw (KFwd c0 q) (c0 + 1) eq_refl Hs) as [_ H2].
-        change (mkfwd (c0, q)) with (KFwd c0 q). rewrite H2, lenN_cons. lia.
+        destruct (kchain_from_fwds fw (KFwd c0 q) (c0 + 1) (or_intror eq_refl) Hs) as [_ H2].
+        right. change (mkfwd (c0, q)) with (KFwd c0 q). rewrite H2 by (right; reflexivity). rewrite lenN_cons. lia.
+Qed.
+
+(** a resume marker never follows another kind of event *)
+Lemma kchain_from_nores a l : kchain_from a l -> a <> KRes -> forall b, In b l -> b <> KRes.
+Proof.
+  revert a. induction l as [|c l IH]; intros a H Ha b Hb; [destruct Hb|].
+  cbn [kchain_from] in H. destruct H as [H1 H2].
+  assert (Hc : c <> KRes) by (intros ->; destruct a; cbn [ok_next] in H1; try contradiction; now apply Ha).
+  destruct Hb as [<- | Hb]; [exact Hc|]. eapply IH; eassumption.
+Qed.
+
+(** a list of resume markers is a chain *)
+Lemma kchain_all_res (l : list kev) : Forall (fun a => a = KRes) l -> kchain l.
+Proof.
+  destruct l as [|a l]; [intros _; exact I|]. intros H. inversion H as [|? ? Ha Hr]; subst. cbn [kchain].
+  clear H. induction Hr as [|b l Hb Hr IH]; cbn [kchain_from]; [exact I|]. subst b. split; [exact I|exact IH].
 Qed.
 
 Lemma log_fwds_app a b : log_fwds (a ++ b) = log_fwds a ++ log_fwds b.
